@@ -95,6 +95,19 @@ CLAIMED = {
         "scans is proved in Props/C02Scan.lean when present, otherwise only observed.",
         "DESIGN.md §6 C12",
     ),
+    "C11": (
+        "Lean 4 theorems (filter refinement => residual/WHERE monotone; SQL answer membership invariant under insertion of a row with a fresh id; union over filters; LMDB walk determined by the keys between target and seek) + paired differential runs",
+        "Proof: NostrRelay/Props/C11.lean proves, for all filters/stores/events, that Refines f' f makes the LMDB residual "
+        "predicate of f' imply that of f; that a stored non-matching event is never in an LMDB answer whatever else is "
+        "stored; that whether the scanner yields a key depends only on the keys between it and the seek position (keys "
+        "elsewhere in byte order cannot matter); that on SQL inserting a row with a fresh id and its tag rows changes the "
+        "membership of no other row in any REQ's selection; and that the selection of a filter list is the union of the "
+        "selections. Search: paired runs with byte-order neighbours (ids/authors/kinds/tag values/timestamps), narrowed "
+        "filters, split multi-value conditions, compared as id sets modulo events exactly on a since/until bound.",
+        "Trusted: as C02. Events whose timestamp equals a since/until bound are not compared (the backends and indexes "
+        "differ on bound inclusivity, which the properties leave open). Neighbour events use regular kinds only.",
+        "DESIGN.md §6 C11",
+    ),
 }
 
 NOT_YET = "not reached yet in this round (model/tie not built); see DESIGN.md §10 staging — no weaker technique is substituted"
